@@ -80,9 +80,7 @@ class Harness:
         via = self.via[c.choose(len(self.via), 'via')] if len(self.via) > 1 else self.via[0]
         T = bdd
         if via == 'autoref':
-            T = self.A.BDD.__new__(self.A.BDD)      # as autoref.BDD.__init__ builds it
-            T._bdd = bdd
-            T.vars = bdd.vars
+            T = base.make_autoref(self.A, bdd)
 
         def extract(model):
             case = m.extract(model)
@@ -228,9 +226,7 @@ def replay(case):
     T = bdd
     if a.get('via') == 'autoref':
         import dd.autoref as A
-        T = A.BDD.__new__(A.BDD)
-        T._bdd = bdd
-        T.vars = bdd.vars
+        T = base.make_autoref(A, bdd)
     exc = ret = None
     try:
         if kind == 'new':
